@@ -119,7 +119,7 @@ class MPSWorld(World):
             v = v + 1j * rng.normal(size=D)
         v = v / np.linalg.norm(v) * knobs["scale"]
         self.psi = v.astype(float if knobs["real"] else complex)
-        st, mps = self.call(lambda: qtn.MatrixProductState.from_dense(self.psi, dims=self.dims))
+        st, mps = self.call(lambda: qtn.MatrixProductState.from_dense(self.psi, dims=self.dims, cutoff=0.0))
         if st == "rejected":
             raise Violation("C08/rejected_valid_input", repr(mps))
         self.mps = mps
